@@ -15,13 +15,13 @@ extern void const* vf_fn_this; // address of the capture of the target invoked l
 struct C1 { // 8 bytes: fills inplace_function<int(int), 8> exactly
     T3 t;
     explicit C1(PV x) noexcept : t((int)x) {}
-    int operator()(int a) const { vf_fn_this = &t; return int(unsigned(t.get()) + unsigned(a)); }
+    int operator()(int a) const { vf_fn_this = &t; return int(unsigned(t.get()) ^ unsigned(a)); }
 };
 struct C2 { // 16 bytes
     T3 t;
     int k0, k1;
     explicit C2(PV x) noexcept : t((int)x), k0(7), k1(9) {}
-    int operator()(int a) const { vf_fn_this = &t; return int(unsigned(t.get()) - unsigned(a)); }
+    int operator()(int a) const { vf_fn_this = &t; return int(~(unsigned(t.get()) ^ unsigned(a))); }
 };
 using F = etl::inplace_function<int(int), 16>;
 using FS = etl::inplace_function<int(int), 8>;
